@@ -5,7 +5,7 @@ import ast
 import re
 
 from ..cfg import typestate
-from ..core import INCONCLUSIVE, OK, VIOLATION, Ctx, canon, is_self_attr, local_defs
+from ..core import INCONCLUSIVE, OK, VIOLATION, Ctx, cond_is, canon, is_self_attr, local_defs
 from ..model import AnalysisError, body_walk, norm
 
 CLAIM = """Decides box closure by construction, inductively (individuals entering an operator are inside the box): (R01.1) an abstract
@@ -644,6 +644,60 @@ def _cma_bounds_ok(ctx, init, ctor_calls):
     return True, ""
 
 
+def _face_atoms(e: ast.AST, xp: str, bp: str) -> ast.AST:
+    """Replace the recognisable box-face tests in a boolean expression by named atoms (LOWER_OK, UPPER_OK, BOUNDS_NONE, WRONG_FACE)."""
+    lo, hi = f"{bp}[:,0]", f"{bp}[:,1]"
+
+    def face(cmp):
+        if not (isinstance(cmp, ast.Compare) and len(cmp.ops) == 1):
+            return None
+        l, r, op = canon(cmp.left), canon(cmp.comparators[0]), type(cmp.ops[0])
+        if op in (ast.Lt, ast.LtE):
+            l, r, op = r, l, {ast.Lt: ast.Gt, ast.LtE: ast.GtE}[op]
+        if op not in (ast.Gt, ast.GtE):
+            return None
+        if l == xp and r == lo:
+            return "LOWER_OK"
+        if l == hi and r == xp:
+            return "UPPER_OK"
+        if (l == xp and r == hi) or (l == lo and r == xp) or (l == hi and r == lo):
+            return "WRONG_FACE"
+        return None
+
+    class T(ast.NodeTransformer):
+        def visit_Call(self, node):
+            fn = norm(node.func)
+            if fn in ("np.all", "all", "numpy.all", "bool") and len(node.args) == 1:
+                a = node.args[0]
+                if fn == "bool":
+                    return self.visit(a)
+                f1 = face(a)
+                if f1:
+                    return ast.Name(id=f1, ctx=ast.Load())
+                parts = None
+                if isinstance(a, ast.BinOp) and isinstance(a.op, ast.BitAnd):
+                    parts = [a.left, a.right]
+                elif isinstance(a, ast.Call) and norm(a.func) in ("np.logical_and",) and len(a.args) == 2:
+                    parts = list(a.args)
+                if parts and all(face(p) for p in parts):
+                    return ast.BoolOp(op=ast.And(), values=[ast.Name(id=face(p), ctx=ast.Load()) for p in parts])
+            if isinstance(node.func, ast.Attribute) and node.func.attr == "all" and not node.args:
+                f1 = face(node.func.value)
+                if f1:
+                    return ast.Name(id=f1, ctx=ast.Load())
+            return node
+
+        def visit_Compare(self, node):
+            if len(node.ops) == 1 and isinstance(node.ops[0], (ast.Is, ast.IsNot, ast.Eq, ast.NotEq)) and canon(node.left) == bp and canon(node.comparators[0]) == "None":
+                nm = ast.Name(id="BOUNDS_NONE", ctx=ast.Load())
+                return nm if isinstance(node.ops[0], (ast.Is, ast.Eq)) else ast.UnaryOp(op=ast.Not(), operand=nm)
+            return node
+
+    import copy
+
+    return T().visit(copy.deepcopy(e))
+
+
 def r01_3(ctx: Ctx):
     """R01.3 initialisers: uniform between the two columns; normal sampling loops until in_bounds = all(x >= lower) and all(x <= upper)."""
     obs = []
@@ -660,35 +714,41 @@ def r01_3(ctx: Ctx):
         raise AnalysisError("sample_normal.in_bounds / create vanished")
     xp = ib.params()[0]
     rets = [r for r in body_walk(ib.node) if isinstance(r, ast.Return)]
-    conj = None
-    okc = False
-    why = "in_bounds has no conjunction of the two faces"
-    for r in rets:
-        v = r.value
-        if isinstance(v, ast.Constant) and v.value is True:
-            continue
-        if isinstance(v, ast.BoolOp) and isinstance(v.op, ast.And) and len(v.values) == 2:
-            ts = sorted(canon(x) for x in v.values)
-            want = sorted([f"np.all({xp}>={bp}[:,0])", f"np.all({xp}<={bp}[:,1])"])
-            alt = sorted([f"np.all({bp}[:,0]<={xp})", f"np.all({xp}<={bp}[:,1])"])
-            okc = ts == want or ts == alt
-            if not okc:
-                why = f"in_bounds tests `{norm(v)[:90]}`, not all(x >= lower) and all(x <= upper)"
-        elif isinstance(v, ast.BoolOp) and isinstance(v.op, ast.Or):
-            why = "in_bounds accepts a point that respects only ONE face (`or`)"
+    from ..core import _bool_atoms, bool_equiv
+    from ..normalize import _expr_of_block
+
+    body = [x for x in ib.node.body if not (isinstance(x, ast.Expr) and isinstance(x.value, ast.Constant))]
+    E = _expr_of_block(body, ast.Constant(value=None))
+    st_ib = INCONCLUSIVE
+    why = "cannot reduce in_bounds to one boolean expression"
+    if E is not None:
+        E = _face_atoms(E, xp, bp)
+        want = ast.parse("BOUNDS_NONE or (LOWER_OK and UPPER_OK)", mode="eval").body
+        atoms = set()
+        _bool_atoms(E, atoms)
+        imp = bool_equiv(ast.BoolOp(op=ast.Or(), values=[ast.UnaryOp(op=ast.Not(), operand=E), want]), ast.Constant(value=True))
+        if imp is True:
+            st_ib = OK
+        elif imp is False and atoms <= {"BOUNDS_NONE", "LOWER_OK", "UPPER_OK", "WRONG_FACE"}:
+            st_ib, why = VIOLATION, f"in_bounds accepts points outside the box: `{norm(rets[-1].value)[:90] if rets else '?'}` does not imply all(x >= lower) and all(x <= upper)"
         else:
-            why = f"in_bounds returns `{norm(v)[:80]}`: a single face or a different test"
-    # the True shortcut only for bounds is None
-    for n in body_walk(ib.node):
-        if isinstance(n, ast.If) and any(isinstance(x, ast.Return) and isinstance(x.value, ast.Constant) and x.value.value is True for x in n.body):
-            if canon(n.test) != f"{bp}isNone":
-                okc, why = False, f"in_bounds accepts every point when `{norm(n.test)}`"
-    obs.append(ctx.ob("R01.3", ib, rets[-1] if rets else ib.node, status=OK if okc else VIOLATION, detail="in_bounds = all(x >= lower) and all(x <= upper)" if okc else f"sample_normal: {why}", construct="in_bounds"))
+            why = f"cannot decide whether `{norm(rets[-1].value)[:90] if rets else '?'}` implies all(x >= lower) and all(x <= upper)"
+    obs.append(ctx.ob("R01.3", ib, rets[-1] if rets else ib.node, status=st_ib, detail="in_bounds implies all(x >= lower) and all(x <= upper)" if st_ib == OK else f"sample_normal: {why}", construct="in_bounds"))
     loops = [n for n in body_walk(cr.node) if isinstance(n, ast.While)]
-    okl = len(loops) == 1 and canon(loops[0].test) in ("notin_bounds(x)",) and any(isinstance(s, ast.Assign) and norm(s.targets[0]) == "x" for s in loops[0].body)
+    cdefs = local_defs(cr)
     rets = [r for r in cr.node.body if isinstance(r, ast.Return)]
-    okl = okl and len(rets) == 1 and norm(rets[0].value) == "x" and not any(isinstance(x, (ast.Break, ast.Return)) for l in loops for x in ast.walk(l))
-    obs.append(ctx.ob("R01.3", cr, loops[0] if loops else cr.node, status=OK if okl else VIOLATION, detail="create() resamples until the point is in bounds and returns only then" if okl else "sample_normal.create can return a point that failed (or was never put to) the in_bounds test", construct="rejection-loop"))
+    calls_ib = any(isinstance(c, ast.Call) and norm(c.func) == "in_bounds" for c in body_walk(cr.node))
+    st_l = INCONCLUSIVE
+    if len(loops) == 1 and len(rets) == 1 and isinstance(rets[0].value, ast.Name):
+        xv = rets[0].value.id
+        exits = [x for x in ast.walk(loops[0]) if isinstance(x, (ast.Break, ast.Return))]
+        if cond_is(loops[0].test, f"not in_bounds({xv})", {k: v for k, v in cdefs.items() if k != xv}) and any(isinstance(st, ast.Assign) and norm(st.targets[0]) == xv for st in loops[0].body) and not exits and cr.node.body.index(rets[0]) > cr.node.body.index(loops[0]):
+            st_l = OK
+        elif exits or cond_is(loops[0].test, f"in_bounds({xv})", cdefs):
+            st_l = VIOLATION
+    elif not loops and not calls_ib:
+        st_l = VIOLATION
+    obs.append(ctx.ob("R01.3", cr, loops[0] if loops else cr.node, status=st_l, detail="create() resamples until the point is in bounds and returns only then" if st_l == OK else "sample_normal.create can return a point that failed (or was never put to) the in_bounds test", construct="rejection-loop"))
     return obs
 
 
